@@ -40,6 +40,7 @@ pub const DEPTH_OPS: &[&str] = &[
     "get_by_keypath_deep",
     // byte-level functions that look at the outer container only (or walk with an explicit queue) today
     "traverse_check_string",
+    "traverse_check_string_reentrant",
     "get_by_index_deep",
     "get_by_name_deep",
     "object_keys_array_values_each",
@@ -70,6 +71,16 @@ pub const BUILDS: &[&str] = &["dev", "checked", "shipped"];
 /// one swallowed) inside the library is the death of the process. Depths stay well below every recorded
 /// stack-exhaustion depth of the optimised builds, so that a death in this build is never the known finding.
 pub const ABORT_BUILD: &str = "aborting";
+/// The constrained node: the shipped build in a process whose address space is capped at what it has mapped plus
+/// 192 MiB when the case starts (`RLIMIT_AS`): a container that cannot hand out another large mapping, so a big
+/// allocation, and the creation of a thread with a big stack, FAIL instead of being served lazily.
+pub const CONSTRAINED_BUILD: &str = "shipped+aslimit";
+pub const CONSTRAINED_DEPTHS: &[u64] = &[2_000, 100_000];
+const AS_HEADROOM: u64 = 192 << 20;
+
+fn base_build(build: &str) -> &str {
+    build.split('+').next().unwrap_or(build)
+}
 pub const ABORT_DEPTHS: &[u64] = &[1, 100, 600, 2_000];
 /// The memory-limited node: a single allocation request above this (8x for the quadratic pretty printer) is what
 /// `Vec::with_capacity` turns into an abort where the allocator can refuse it (container limit, `ulimit -v`, 32 bit).
@@ -174,7 +185,7 @@ impl Limits {
     /// A recorded finding covers a crash only at or beyond 60 % of the smallest crashing depth recorded
     /// for the same build and stack budget; an earlier crash is a new violation.
     fn covered(&self, key: &str, build: &str, stack: u64, depth: u64) -> bool {
-        match self.floors.get(key).and_then(|per| per.get(&(build.to_string(), stack >> 20))) {
+        match self.floors.get(key).and_then(|per| per.get(&(base_build(build).to_string(), stack >> 20))) {
             Some(floor) => depth * 100 >= *floor * COVER_NUM,
             None => false,
         }
@@ -459,6 +470,28 @@ fn run_depth_op(op: &str, shape: &str, depth: u64) -> String {
             let b = deep_jsonb(shape, depth);
             let found = jsonb::traverse_check_string(&b, |s| s == b"needle");
             if found { "error:found_a_string_in_a_document_without_strings".into() } else { "completed".into() }
+        }
+        "traverse_check_string_reentrant" => {
+            // documents embedded in string values (message envelopes): the closure looks inside them with the same
+            // function, `depth` (at most 12) envelopes deep, as JSONB and as text
+            fn holds(s: &[u8]) -> bool {
+                match s.first() {
+                    Some(b'{') | Some(b'[') => jsonb::traverse_check_string(s, holds),
+                    _ => s == b"needle",
+                }
+            }
+            let levels = depth.min(12);
+            let mut doc = String::from(if shape == "arrays" { r#"["x","needle"]"# } else { r#"{"seq":0,"body":"needle"}"# });
+            for l in 1..levels {
+                let inner = jsonb::Value::String(doc.clone().into()).to_string();
+                doc = if level_is_object(shape, l) { format!(r#"{{"seq":{l},"body":{inner}}}"#) } else { format!(r#"[[{l},{inner}]]"#) };
+            }
+            let as_jsonb = match jsonb::parse_value(doc.as_bytes()) {
+                Ok(v) => v.to_vec(),
+                Err(e) => return format!("harness:envelope_does_not_parse:{}", ops::err_name(&e)),
+            };
+            let (a, b) = (jsonb::traverse_check_string(&as_jsonb, holds), jsonb::traverse_check_string(doc.as_bytes(), holds));
+            if a && b { "completed".into() } else { format!("error:needle_not_found_jsonb_{a}_text_{b}") }
         }
         "get_by_index_deep" => {
             let b = deep_jsonb(shape, depth);
@@ -950,6 +983,24 @@ pub fn child_main(arg: &str) -> i32 {
         Case::Depth { stack, .. } | Case::Api { stack, .. } => *stack,
         Case::Index { .. } => 8 << 20,
     };
+    let constrained = match &case {
+        Case::Depth { build, .. } | Case::Index { build, .. } | Case::Api { build, .. } => build.contains("+aslimit"),
+    };
+    if constrained {
+        // cap the address space at what is mapped now plus the headroom
+        extern "C" {
+            fn setrlimit(resource: i32, rlim: *const [u64; 2]) -> i32;
+        }
+        const RLIMIT_AS: i32 = 9;
+        let pages: u64 = std::fs::read_to_string("/proc/self/statm").ok().and_then(|s| s.split_whitespace().next().and_then(|p| p.parse().ok())).unwrap_or(0);
+        let lim = pages * 4096 + AS_HEADROOM + stack;
+        // SAFETY: plain syscall wrapper with a valid pointer to two u64 (soft, hard)
+        let rc = unsafe { setrlimit(RLIMIT_AS, &[lim, lim]) };
+        if pages == 0 || rc != 0 {
+            println!("RESULT harness:cannot_limit_address_space");
+            return 2;
+        }
+    }
     let alloc_limit = match &case {
         Case::Depth { op, .. } if op == "to_pretty_string" => ALLOC_LIMIT * 8,
         Case::Api { func, .. } if func == "to_pretty_string" => ALLOC_LIMIT * 8,
@@ -994,6 +1045,7 @@ fn build_exe(build: &str) -> Result<std::path::PathBuf, String> {
     let me = std::env::current_exe().map_err(|e| e.to_string())?;
     // .../target/<profile>/sim
     let target = me.parent().and_then(|p| p.parent()).ok_or("cannot locate target dir")?;
+    let build = base_build(build);
     let p = target.join(if build == "dev" { "debug" } else { build }).join("sim");
     if !p.exists() {
         return Err(format!("{} is missing: run `/verif/check build`", p.display()));
@@ -1122,6 +1174,16 @@ impl Limits {
             for shape in SHAPES {
                 for depth in ABORT_DEPTHS {
                     v.push(Case::Depth { op: op.to_string(), shape: shape.to_string(), depth: *depth, stack: 8 << 20, build: ABORT_BUILD.to_string() });
+                }
+            }
+        }
+        for op in DEPTH_OPS {
+            for shape in SHAPES {
+                for depth in CONSTRAINED_DEPTHS {
+                    if *op == "to_pretty_string" && *depth > PRETTY_MAX_DEPTH {
+                        continue;
+                    }
+                    v.push(Case::Depth { op: op.to_string(), shape: shape.to_string(), depth: *depth, stack: 8 << 20, build: CONSTRAINED_BUILD.to_string() });
                 }
             }
         }
@@ -1263,6 +1325,9 @@ impl Scenario for Limits {
     }
     fn tag(&self) -> u64 {
         0xC20
+    }
+    fn long_blocks(&self) -> bool {
+        false
     }
     fn runs(&self, tier: &str) -> u64 {
         let fixed = (Limits::plan().len() + self.probes().len() + Limits::api_plan().len()) as u64;
@@ -1416,6 +1481,9 @@ impl Scenario for Limits {
                 if build == ABORT_BUILD {
                     stats.inc("probe/abort_build_case");
                 }
+                if build == CONSTRAINED_BUILD {
+                    stats.inc("probe/address_space_limited_case");
+                }
                 stats.inc2("outcome", &format!("{op}:{label}"));
                 if *depth >= 2 {
                     let mut h = Fnv::new();
@@ -1538,7 +1606,8 @@ impl Scenario for Limits {
             "fault_kinds".into(),
             json!({"stack_exhaustion_observed": stats.get("probe/stack_exhaustion_observed"), "small_stack_budget_cases": "2 MiB and 1 MiB stacks", "large_stack_budget_cases (1 GiB, 33,000 and 66,000 levels)": stats.get("probe/big_stack_case"),
                    "overflow_checked_build_cases": "build=checked", "panic_abort_build_cases": stats.get("probe/abort_build_case"),
-                   "memory_limited_node": "largest single allocation request recorded per case; above 1 GiB (8 GiB for to_pretty_string) is a violation"}),
+                   "memory_limited_node": "largest single allocation request recorded per case; above 1 GiB (8 GiB for to_pretty_string) is a violation",
+                   "address_space_limited_cases (RLIMIT_AS = mapped + 192 MiB: big mappings and big thread stacks fail)": stats.get("probe/address_space_limited_case")}),
         );
         m.insert("child_processes".into(), json!(stats.steps));
         m.insert(
@@ -1552,6 +1621,7 @@ impl Scenario for Limits {
     fn probes(&self) -> Vec<&'static str> {
         vec![
             "probe/big_stack_case",
-            "probe/abort_build_case","probe/i32_extreme_index", "probe/completed_at_100k_or_deeper", "probe/stack_exhaustion_observed", "probe/api_variant_shallow_today"]
+            "probe/abort_build_case",
+            "probe/address_space_limited_case","probe/i32_extreme_index", "probe/completed_at_100k_or_deeper", "probe/stack_exhaustion_observed", "probe/api_variant_shallow_today"]
     }
 }
